@@ -35,9 +35,9 @@ def run(ctx, entry_tu=ENTRY_TU, scope_label='production'):
     chk.rule('E1', 'each interposer is defined once in the library with default visibility and the libc prototype', floor=2)
     chk.rule('E2', 'exactly one indirect call; its callee is only ever dlsym(RTLD_NEXT, "<own name>") and that definition dominates the call', floor=2)
     chk.rule('E3', "the real call's arguments are the interposer's own parameters, in order, never modified", floor=2)
-    chk.rule('E4', 'the real call is the operand of the only return, executed exactly once on every path, nothing executes after it', floor=2)
-    chk.rule('E5', 'on every path: init < store filename/argv/envp < log action < cleanup < real call; each stored value is the call\'s own parameter', floor=10)
-    chk.rule('E6', 'no non-returning, process-replacing or signalling API is reachable from the interposer', floor=2)
+    chk.rule('E4', 'the real call is the operand of the only return, executed exactly once on every path, nothing executes after it', floor=1)
+    chk.rule('E5', 'on every path: init < store filename/argv/envp < log action < cleanup < real call; each stored value is the call\'s own parameter', floor=5)
+    chk.rule('E6', 'no non-returning, process-replacing or signalling API is reachable from the interposer', floor=1)
     chk.rule('E7', "the caller's path/argv/envp are only read: no store through them, never passed as non-const, environment never mutated", floor=3)
     chk.explanation = (
         'All paths of the two interposers and everything reachable from them through the resolved call graph '
@@ -86,9 +86,17 @@ def check_interposer(ctx, prog, cg, summ, F, name, roles):
     # ---- E2 ------------------------------------------------------------------
     ind = [c for c in F.calls() if c.get('callee') is None]
     if not chk.ob('E2', '%s:one-indirect-call' % name, len(ind) == 1, F.where(), name,
-                  'found %d indirect calls: %s' % (len(ind), '; '.join(render(c) for c in ind))):
+                  'found %d calls through a function pointer (%s): the interposer must end in exactly one call of the '
+                  'next definition obtained with dlsym(RTLD_NEXT); calling an exec function by name re-enters the '
+                  'wrapper or skips libc' % (len(ind), '; '.join(render(c) for c in ind))):
         if not ind:
-            raise AnalysisBroken('%s: no call through a function pointer found' % name)
+            # still decide what can be decided without the real call: the log action must run once
+            for label, ev in (('init', {'snoopy_init'}), ('log-action', {'snoopy_action_log_syscall_exec'}),
+                              ('cleanup', {'snoopy_cleanup'})):
+                mn, mx = summ.count_range(F, ev)
+                chk.ob('E5', '%s:%s-exactly-once' % (name, label), mn == 1 and mx == 1, F.where(), name,
+                       '%s runs between %s and %s times per call' % ('/'.join(ev), mn, mx))
+            return
     real = ind[0]
     ce = strip(real.ch[0])
     while ce.k == 'UnaryOperator' and ce['op'] == '*':
